@@ -383,18 +383,56 @@ Theorem C19_vstack_rows : forall m1 m2 ms, let all := m1 :: m2 :: ms in
 Proof. exact vstack_rows. Qed.
 Print Assumptions C19_vstack_rows.
 
-(* ---------------------------------------------------------------- not proved (tie + search only) *)
-(* ** , reversed, __setitem__ with a Matrix value, the put loop as a whole, dot's dispatch and the bits
-   setter are modelled in Lib/Matrix.v and compared with the real class and with nested-list arithmetic
-   on every run, but have no theorem.  The statement for ** that remains to be proved: *)
-Fixpoint mat_pow_spec (a : Mx) (n : nat) (i j : nat) : Z :=
-  match n with
-  | O => if Nat.eqb i j then 1 else 0
-  | S k => sumZ (map (fun t => mat_pow_spec a k i t * el a t j) (seq 0 (rows_of a)))
-  end.
-Definition C19_pow_full_statement : Prop :=
-  forall r a n i j, wfx r r a -> mrange a -> 0 < bits a <= maxb a -> (i < r)%nat -> (j < r)%nat ->
+(* ---------------------------------------------------------------- reversed, __setitem__, bits setter *)
+Theorem C19_reversed_correct : forall r c a i j, wfx r c a -> mrange a -> bits a <= maxb a ->
+  (i < r)%nat -> (j < c)%nat ->
+  el (mreversed a) i j = el a (r - 1 - i) (c - 1 - j) /\ bits (mreversed a) = bits a.
+Proof. exact reversed_correct. Qed.
+Print Assumptions C19_reversed_correct.
+
+Theorem C19_setitem :
+  (forall r c a kr kc x rs cs i j, wfx r c a ->
+     key_set (Z.of_nat r) kr = Some (rs, rs + 1) -> key_set (Z.of_nat c) kc = Some (cs, cs + 1) ->
+     (i < r)%nat -> (j < c)%nat ->
+     exists res, msetitem_s a kr kc x = Some res /\ bits res = bits a /\
+       el res i j = if (Z.of_nat i =? rs) && (Z.of_nat j =? cs) then trunc (bits a) x else el a i j) /\
+  (forall r c a kr kc v rs re cs ce i j, wfx r c a ->
+     key_set (Z.of_nat r) kr = Some (rs, re) -> key_set (Z.of_nat c) kc = Some (cs, ce) ->
+     0 <= rs -> 0 <= cs -> Z.of_nat (rows_of v) = re - rs -> Z.of_nat (cols_of v) = ce - cs ->
+     (i < r)%nat -> (j < c)%nat ->
+     exists res, msetitem_m a kr kc v = Some res /\ bits res = bits a /\
+       el res i j = if (rs <=? Z.of_nat i) && (Z.of_nat i <? re) && (cs <=? Z.of_nat j) && (Z.of_nat j <? ce)
+                    then trunc (bits a) (el v (i - Z.to_nat rs) (j - Z.to_nat cs)) else el a i j).
+Proof. exact (conj setitem_scalar setitem_block). Qed.
+Print Assumptions C19_setitem.
+
+Theorem C19_bits_setter_truncates : forall a b i j,
+  el (mset_bits a b) i j = trunc b (el a i j) /\ bits (mset_bits a b) = b.
+Proof. exact set_bits_correct. Qed.
+Print Assumptions C19_bits_setter_truncates.
+
+(* ---------------------------------------------------------------- ** and dot's inner product *)
+(* a ** n (reduce of __matmul__ over copies; identity for n = 0): entry (i,j) is the mathematical power
+   A^n[i,j] (mat_pow_spec: A^0 = I, A^1 = A, A^(n+1) = A^n . A) modulo 2^bits of the result -- exact
+   until max_bits is first reached, and from then on every intermediate has exactly max_bits bits *)
+Theorem C19_pow_correct : forall r a n i j, wfx r r a -> mrange a -> 0 < bits a <= maxb a ->
+  (i < r)%nat -> (j < r)%nat ->
   el (mpow a n) i j = mat_pow_spec a n i j mod 2 ^ bits (mpow a n).
+Proof. exact pow_correct. Qed.
+Print Assumptions C19_pow_correct.
+
+(* dot of two vectors (inner_product): the integer inner product modulo 2^len(result); exact when
+   max_bits is not reached by the products *)
+Theorem C19_dot_inner_product : forall r c x y, wfx r c x -> mrange x -> mrange y -> 0 <= maxb x ->
+  el (inner_product x y) 0 0 = inner_spec x y r c mod 2 ^ bits (inner_product x y) /\
+  (bits x + bits y <= maxb x -> el (inner_product x y) 0 0 = inner_spec x y r c).
+Proof. exact inner_product_correct. Qed.
+Print Assumptions C19_dot_inner_product.
+
+(* ---------------------------------------------------------------- not proved (tie + search only)
+   the put loop as a whole (its index handling, value selection and single write are proved above),
+   dot's dispatch between its branches and the in-place operators (op followed by copy) are modelled in Lib/Matrix.v and compared with the real class and with
+   nested-list arithmetic on every run, but have no theorem. *)
 
 (* ---------------------------------------------------------------- non-vacuity *)
 Definition exA : Mx := MkMx 3 64 [[1; 2; 3]; [4; 5; 6]].
